@@ -246,7 +246,7 @@ func (g *gen) genWKB(corpus []corpusEntry, n int) {
 				// document, all fields of the core documents; elsewhere boundary values)
 				for k := 0; k < fl.width; k++ {
 					off := fl.off + k
-					if g.thorough || (dense && (fl.root || k == 0)) || (c.semi && di == 0 && k == 0) {
+					if (g.thorough && di < 2) || (dense && (fl.root || k == 0)) || (c.semi && di == 0 && k == 0) {
 						for v := 0; v < 256; v++ {
 							if byte(v) != doc[off] {
 								g.add("sub256", f, withByte(doc, off, byte(v)))
@@ -470,7 +470,7 @@ func (g *gen) genTWKB(corpus []corpusEntry, n int) {
 			}
 			for off := 0; off < len(doc); off++ {
 				// type/precision, metadata, extended precision / size / first count: all 256
-				if (dense && off < 5) || (c.semi && di == 0 && off < 3) || g.thorough {
+				if (dense && off < 5) || (c.semi && di == 0 && off < 3) || (g.thorough && (off < 8 || c.core || c.semi)) {
 					for v := 0; v < 256; v++ {
 						if byte(v) != doc[off] {
 							g.add("sub256", f, withByte(doc, off, byte(v)))
